@@ -6,6 +6,11 @@ props = [json.loads(l) for l in open(os.path.join(V, "properties.jsonl"))]
 ids = [p["id"] for p in props]
 
 CLAIMED = {
+ "C01": ("model_checking", "TLC invariants AuthInv/AgreeInv on every start pattern and on the reordering/duplicating/dropping network; on the real code: every TLC-exported handshake schedule with tampered copies (every field; every byte and cut in the thorough tier) and tampered replacements of each AKE message, plus an attack catalogue with an active attacker E built from the independent reference (impersonation with and without the victim's key claimed, signature over swapped values, wrong key set, degenerate DH values 0,1,p-1,p,p+1 with the matching shared secret, cross-session replay of both roles, reflection), in a fresh and in an already encrypted victim, v2 and v3; each step validated by TLC against OTR.tla and AuthInv evaluated on the observed state", "6/C01"),
+ "C02": ("model_checking", "TLC invariants DeliveredAuthentic/AtMostOnce on the bag network; on the real code: data-phase schedules with tampered copies of every data message (each authenticated field, truncation, extension, key ids, counter, flag), injected plaintext, forgeries re-authenticated with every MAC key disclosed on the wire, reflection; PROP C02 (no plaintext from attacker input unless flagged) and exact conformance of results", "6/C02"),
+ "C06": ("model_checking", "every rejected tampered message (copies inserted before every delivery of every exported schedule, AKE, data and lifecycle scenarios) must leave the projected conversation state exactly unchanged (trace property C06), the rest of the schedule must conform to the specification and still complete (C04/C07 properties in the attacked runs)", "6/C06"),
+ "C15": ("model_checking", "TLC invariant TagInv; tag substitutions (0, malformed, other valid, swapped) on every message kind in every handshake/data position, foreign-instance-first scenario, own-tag generation under adversarial randomness; ExtractInstanceTags compared with the reference on every wire message and fragment", "6/C15"),
+ "C16": ("model_checking", "TLC over all 64x64 policy pairs with attacker-made offers (any version list, query or whitespace tag) and user starts: VersionAllowed/NoForbiddenOnWire/HighestCommon; the driver enumerates policy pairs x offer forms on the real code (all 4096 pairs in the thorough tier), traces validated, committed version checked against max(allowed, offered), pass-through checked byte-exact", "6/C16"),
  "C03": ("model_checking", "TLC invariant NoLeak over lifecycle/policy configurations of OTRModel.tla; every exported schedule and seeded random lifecycle runs executed on the real code and validated by TLC (OTRTrace.tla) with the clear-text property evaluated on every emitted message", "6/C03"),
  "C04": ("model_checking", "TLC invariants NoHonestReject/PrefixOrder/CompleteAtQuiescence over all interleavings of sends and FIFO deliveries within (MaxSend, MaxFlight) bounds, v2 and v3, with ticks and extra-key traffic; every transition's schedule replayed on the real code and each recorded API call validated as a step of OTR.tla; deeper seeded random runs with fragmentation", "6/C04"),
  "C05": ("model_checking", "TLC invariant AtMostOnce on the bag network (reorder, duplicate, drop) after a real handshake; exported schedules and seeded duplicate/replay runs (also across End/re-AKE) executed and validated", "6/C05"),
